@@ -178,7 +178,7 @@ theorem stepSimple_WF_T (s s' : St) (r : String) (op : Op) (hw : WF s) (h : step
 theorem stepSimple_WF_S (s s' : St) (r : String) (op : Op) (hw : WF s) (h : stepSimple s op = some (s', r))
     (hop : match op with
       | .mkS _ _ _ | .mkS0 _ _ | .cpS _ _ | .mvS _ _ | .asgS _ _ | .masgS _ _ | .setS _ _ | .delS _ | .discS _
-      | .blockS _ _ | .blockedSq _ | .emptySq _ => True
+      | .blockS _ _ | .blockedSq _ | .emptySq _ | .boolSq _ => True
       | _ => False) : WF s' := by
   cases op <;> simp only at hop <;> simp only [stepSimple] at h
   case mkS i ty spec =>
@@ -279,6 +279,7 @@ theorem stepSimple_WF_S (s s' : St) (r : String) (op : Op) (hw : WF s) (h : step
       wf_subst h; exact hw.withS _ (hw.vars.aset i _ ((hw.var hv).blocked b))
   case blockedSq i => split at h <;> wf_done h hw
   case emptySq i => split at h <;> wf_done h hw
+  case boolSq i => split at h <;> wf_done h hw
 
 /-! ### signal objects -/
 
@@ -576,7 +577,7 @@ theorem stepSimple_WF_K (s s' : St) (r : String) (op : Op) (hw : WF s) (h : step
 theorem stepSimple_WF {s s' : St} {op : Op} {r : String} (hw : WF s) (h : stepSimple s op = some (s', r)) : WF s' := by
   cases op
   case newT | delT | notifyT | cpT | mvT | asgT | masgT => exact stepSimple_WF_T _ _ _ _ hw h trivial
-  case mkS | mkS0 | cpS | mvS | asgS | masgS | setS | delS | discS | blockS | blockedSq | emptySq =>
+  case mkS | mkS0 | cpS | mvS | asgS | masgS | setS | delS | discS | blockS | blockedSq | emptySq | boolSq =>
     exact stepSimple_WF_S _ _ _ _ hw h trivial
   case newG | cpG | mvG | asgG | masgG | delG => exact stepSimple_WF_G _ _ _ _ hw h trivial
   case conn | connfn | clear | sizeq | emptyGq | blockedGq | blockG => exact stepSimple_WF_L _ _ _ _ hw h trivial
